@@ -383,6 +383,11 @@ fn emit(t: &mut Trace, case: u64, src: &str, enc: &str, be: bool, mode: &str, cp
             "args_out": o.out.iter().map(|(ti, b, off, raw)| json!({"ti":[ti & 0xffff, ti >> 16],"be":b,"off":off,"raw":raw})).collect::<Vec<_>>(),
             "text_ok": o.text.is_some(), "text": o.text.clone().unwrap_or_default(),
         })),
+        Err(msg) if msg.starts_with("encoder error") => {
+            // the encoder refused the input (returned Err): record what the 16-bit length fields would have had to carry
+            let lens: Vec<usize> = vals.iter().map(|v| if v.is_num() || v.kind() == "bool" { 0 } else { v.raw_in_msg(be, enc).len() }).collect();
+            t.ev(json!({"ev":"refused","msg":msg,"enc":enc,"be":be,"lens":lens}))
+        }
         Err(msg) => t.ev(json!({"ev":"panic","msg":msg,"enc":enc,"be":be,"mode":mode,
                                 "args_in": vals.iter().map(|v| v.json()).collect::<Vec<_>>()})),
     }
@@ -468,15 +473,32 @@ fn main() {
     let n_huge = a.num("--huge", 0);
     let kinds: [(&str, usize); 14] = [("bool", 1), ("sint", 1), ("sint", 2), ("sint", 4), ("sint", 8), ("uint", 1), ("uint", 2), ("uint", 4),
                                       ("uint", 8), ("floa", 4), ("floa", 8), ("strU", 0), ("strA", 0), ("rawd", 0)];
+    // sizes around the 16-bit limit of the length field, in priority order (the first --huge entries are used):
+    // n = bytes the length field has to announce (the serde string encoder adds its terminator itself)
+    let native_be = cfg!(target_endian = "big");
+    let mut huge_combos: Vec<(&str, bool, &str, usize)> = vec![
+        ("serde", native_be, "strU", 65536), ("serde", native_be, "strU", 65535), ("serde", native_be, "rawd", 65536),
+        ("serde", native_be, "rawd", 65535), ("pfa", false, "strU", 65535), ("pfa", true, "rawd", 65535),
+        ("serde", native_be, "strU", 65534), ("serde", native_be, "strA", 65536), ("serde", native_be, "strA", 65535),
+    ];
+    for n in [65533usize, 65534, 65535, 65536, 65537] {
+        for kind in ["strU", "strA", "rawd"] {
+            for (enc, be) in ENCS {
+                if (enc == "serde" || n <= 65535) && !huge_combos.contains(&(enc, be, kind, n)) {
+                    huge_combos.push((enc, be, kind, n));
+                }
+            }
+        }
+    }
     for r_i in 0..n_random {
-        let (enc, be) = *rng.pick(&ENCS);
-        let huge = r_i < n_huge;
+        let huge = r_i < n_huge && (r_i as usize) < huge_combos.len();
+        let (enc, be) = if huge { (huge_combos[r_i as usize].0, huge_combos[r_i as usize].1) } else { *rng.pick(&ENCS) };
         let nargs = if huge { rng.range(1, 2) } else { rng.range(0, 8) } as usize;
         let mut vals = Vec::new();
         while vals.len() < nargs {
-            let (kind, w) = *rng.pick(&kinds);
+            let (kind, w) = if huge && vals.is_empty() { (huge_combos[r_i as usize].2, 0usize) } else { *rng.pick(&kinds) };
             let n = if huge && vals.is_empty() {
-                if kind == "strU" && enc == "serde" { 65535 } else { 65535 - rng.below(2) as usize }
+                huge_combos[r_i as usize].3
             } else {
                 match rng.below(6) {
                     0 => 0,
@@ -485,9 +507,6 @@ fn main() {
                     _ => rng.range(1, 40) as usize,
                 }
             };
-            if huge && vals.is_empty() && w != 0 {
-                continue;
-            }
             if let Some(v) = pick_val(&mut rng, kind, w, n, enc) {
                 vals.push(v);
             }
@@ -497,7 +516,7 @@ fn main() {
         }
         let sizes: Vec<usize> = vals.iter().map(|v| 4 + if v.is_num() || v.kind() == "bool" { v.width() } else { 2 + v.raw_in_msg(be, enc).len() }).collect();
         let total: usize = sizes.iter().sum();
-        let m = rng.below(10);
+        let m = if huge { 0 } else { rng.below(10) };   // boundary sizes: always the untruncated round trip
         if m < 5 || vals.is_empty() {
             let r = run_real(enc, be, &vals, None, None);
             emit(&mut t, case, "random", enc, be, "full", 0, &vals, &r);
